@@ -12,7 +12,9 @@ from ..common import pmap
 from . import carving_space
 
 PROP = "C11"
-AFFINE = [(2.0, 0.0), (0.5, 0.0), (1.0, 3.0), (4.0, -7.0), (1024.0, 0.0)]
+# exact maps; the last two make the spread tiny relative to the magnitude / the magnitude tiny (absolute or relative
+# closeness tests on cut points would collapse distinct values)
+AFFINE = [(2.0, 0.0), (0.5, 0.0), (1.0, 3.0), (4.0, -7.0), (1024.0, 0.0), (1.0, float(2**20)), (2.0**-30, 0.0)]
 # order-preserving renamings of NAME_SETS[0] = m0..m7 (alphabetical order == rank)
 RENAMES = [
     {f"m{i}": f"n{i}x" for i in range(8)},
@@ -106,7 +108,9 @@ def run_case(case):
             X2 = X.copy()
             X2["f"] = X2["f"].map(lambda v: mp.get(v, v) if not isnan(v) else v).astype(object)
             v2 = [mp[v] for v in vals]
-            variants.append((f"rename{mi}", X2, y, v2, ids, tie and mp is SCRAMBLE))
+            # categorical features are ordered by target rate: the order of equal-rate categories may legitimately follow
+            # their names (also relative to the missing-value sentinel) -> DONT_CARE under renaming when rates tie
+            variants.append((f"rename{mi}", X2, y, v2, ids, tie and (mp is SCRAMBLE or case["kind"] == "CAT")))
     distinct = 0
     for name, X2, y2, v2, p, dont_care in variants:
         got = fit_partition(case, X2, y2, v2, p)
@@ -119,7 +123,8 @@ def run_case(case):
                 {
                     "kind": "not-invariant:" + name.rstrip("0123456789,.-()' "),
                     "what": f"{name}: base fit -> {base[0]} {base[1]}, re-encoded fit -> {got[0]} {got[1]}",
-                    "finding": "F20" if both_optimal(case, base, got) else None,
+                    # F20 (tie broken by label-dependent float noise) can only explain re-encodings that change the labels
+                    "finding": "F20" if name.startswith(("affine", "rename")) and both_optimal(case, base, got) else None,
                 }
             )
             if len(viol) >= 4:
@@ -186,14 +191,17 @@ def replay(case):
 def enumerate_cases(tier, seed):
     cases, transitions = [], 0
     for carver in ("binary", "continuous"):
-        alpha = carving_space.alphabet(carver, "quick")
-        alpha = alpha[:4] if tier == "quick" else alpha
+        full = carving_space.alphabet(carver, "quick")
         for kind in ("ORD", "QNT", "CAT"):
+            # categorical tables are multisets (few): use the full alphabet so that equal-rate categories of different sizes occur
+            alpha = full if (tier != "quick" or kind == "CAT") else full[:4]
             tabs, tr = carving_space.tables(carver, kind, tier, kmax=3, alpha=alpha)
             transitions += tr
             for cells in tabs:
                 for nan in (None, alpha[1]):
                     for cfg in [{"sort_by": "tschuprowt", "max_n_mod": 3, "min_freq": 0.1, "min_freq_mod": None, "output_dtype": "float", "dropna": True}] + (
+                        [{"sort_by": "tschuprowt", "max_n_mod": 3, "min_freq": 0.1, "min_freq_mod": 0.25, "output_dtype": "float", "dropna": True}] if (kind == "CAT" and nan is None) else []
+                    ) + (
                         [{"sort_by": "cramerv", "max_n_mod": 2, "min_freq": 0.25, "min_freq_mod": None, "output_dtype": "str", "dropna": False}] if tier != "quick" else []
                     ):
                         # names of set 0 (m0..) so that renamings apply; quantitative scale from the seed
